@@ -20,6 +20,7 @@ func genResult(t *rapid.T, kinds []uint8, st *Step) {
 		st.ErrText = rapid.SampledFrom([]string{"boom", "permission denied", "x", "file not found", "50% done, %s left %d", "100%", "duplicate tag", "unknown tag",
 			strings.Repeat("long error text ", 8)[:127], strings.Repeat("long error text ", 9)[:128], strings.Repeat("a rather long explanation. ", 8), strings.Repeat("é", 70)}).Draw(t, "errtext")
 		st.Plain = rapid.Bool().Draw(t, "plain")
+		st.Both = rapid.IntRange(0, 3).Draw(t, "both") == 0
 		if rapid.IntRange(0, 2).Draw(t, "special") == 0 {
 			special := []string{"wrap9p"}
 			if len(kinds) == len(resultKinds) {
